@@ -207,21 +207,42 @@ fn ok_err<E>(r: Result<(), E>) -> String {
 pub fn do_op(ck: &CK, op: &Op) -> String {
     use futures::executor::block_on;
     match (ck, op) {
+        // every public spelling of insert is exercised: which one is a function of the (unique) value
         (CK::S(c), Op::Insert { idx, conf, val, cost, ttl_ns, only }) => {
             let k = mkkey(*idx, *conf);
+            let ttl = Duration::from_nanos(*ttl_ns);
             let r = if *only {
-                c.try_insert_if_present(k, *val, *cost)
+                if val % 2 == 0 { c.try_insert_if_present(k, *val, *cost) } else { Ok(c.insert_if_present(k, *val, *cost)) }
+            } else if *ttl_ns == 0 {
+                match val % 4 {
+                    0 => c.try_insert_with_ttl(k, *val, *cost, ttl),
+                    1 => c.try_insert(k, *val, *cost),
+                    2 => Ok(c.insert(k, *val, *cost)),
+                    _ => Ok(c.insert_with_ttl(k, *val, *cost, ttl)),
+                }
+            } else if val % 2 == 0 {
+                c.try_insert_with_ttl(k, *val, *cost, ttl)
             } else {
-                c.try_insert_with_ttl(k, *val, *cost, Duration::from_nanos(*ttl_ns))
+                Ok(c.insert_with_ttl(k, *val, *cost, ttl))
             };
             match r { Ok(b) => b.to_string(), Err(_) => "err".into() }
         }
         (CK::A(c), Op::Insert { idx, conf, val, cost, ttl_ns, only }) => {
             let k = mkkey(*idx, *conf);
+            let ttl = Duration::from_nanos(*ttl_ns);
             let r = if *only {
-                block_on(c.try_insert_if_present(k, *val, *cost))
+                if val % 2 == 0 { block_on(c.try_insert_if_present(k, *val, *cost)) } else { Ok(block_on(c.insert_if_present(k, *val, *cost))) }
+            } else if *ttl_ns == 0 {
+                match val % 4 {
+                    0 => block_on(c.try_insert_with_ttl(k, *val, *cost, ttl)),
+                    1 => block_on(c.try_insert(k, *val, *cost)),
+                    2 => Ok(block_on(c.insert(k, *val, *cost))),
+                    _ => Ok(block_on(c.insert_with_ttl(k, *val, *cost, ttl))),
+                }
+            } else if val % 2 == 0 {
+                block_on(c.try_insert_with_ttl(k, *val, *cost, ttl))
             } else {
-                block_on(c.try_insert_with_ttl(k, *val, *cost, Duration::from_nanos(*ttl_ns)))
+                Ok(block_on(c.insert_with_ttl(k, *val, *cost, ttl)))
             };
             match r { Ok(b) => b.to_string(), Err(_) => "err".into() }
         }
@@ -255,8 +276,8 @@ pub fn do_op(ck: &CK, op: &Op) -> String {
         (CK::A(c), Op::MaxCost) => format!("z:{}", c.max_cost()),
         (CK::S(c), Op::UpdateMaxCost(mc)) => { c.update_max_cost(*mc); "ok".into() }
         (CK::A(c), Op::UpdateMaxCost(mc)) => { c.update_max_cost(*mc); "ok".into() }
-        (CK::S(c), Op::Len) => format!("n:{}", c.len()),
-        (CK::A(c), Op::Len) => format!("n:{}", c.len()),
+        (CK::S(c), Op::Len) => if c.is_empty() == (c.len() == 0) { format!("n:{}", c.len()) } else { "n:is_empty-disagrees-with-len".into() },
+        (CK::A(c), Op::Len) => if c.is_empty() == (c.len() == 0) { format!("n:{}", c.len()) } else { "n:is_empty-disagrees-with-len".into() },
     }
 }
 
@@ -535,6 +556,12 @@ impl Case {
             // C17: ratio() is hits / (hits + misses) (0 when there were no lookups)
             let ratio = match &*self.ck { CK::S(c) => c.metrics.ratio(), CK::A(c) => c.metrics.ratio() };
             self.mon.ratio(&after, ratio);
+            // the public getters of Metrics against the counters of the same snapshot
+            let m = match &*self.ck { CK::S(c) => c.metrics.clone(), CK::A(c) => c.metrics.clone() };
+            let getters = [m.get_hits(), m.get_misses(), m.get_keys_added(), m.get_keys_updated(), m.get_keys_evicted(),
+                           m.get_cost_added(), m.get_cost_evicted(), m.get_sets_dropped(), m.get_sets_rejected(),
+                           m.get_gets_dropped(), m.get_gets_kept()];
+            self.mon.getters(&after, &getters);
         }
     }
 
